@@ -46,6 +46,13 @@ func (c *Client) handleChannelUpdate(uh UpdateHandler, p map[wallet.BackendID]wi
 			return
 		}
 	}
+	// The hub's copy of a virtual channel mirrors the channel of two other
+	// parties. The hub holds no key for it and cannot sign, so it takes no
+	// updates on it.
+	if ch.hasDummyAccount() {
+		c.logChan(m.Base().ID()).WithField("peer", p).Warn("received update for the hub's copy of a virtual channel: dropped")
+		return
+	}
 	pidx := ch.Idx() ^ 1
 	ch.handleUpdateReq(pidx, m, uh)
 }
